@@ -137,9 +137,12 @@ def cache_update_rules(ctx, P, pre, want=("reset", "flush")):
                 det = "every path from `Some(matching record)` to the return calls reset_ttl"
         ctx.ob(pre + ".matched-record-always-reset", f.name, ok, f.loc(), det)
     if "flush" in want:
-        # the flush block: the for_each whose closure calls set_expire
+        # the flush pass: the for_each whose closure calls set_expire, or the loop in the function itself that does
         flush_blocks = []
         for b, t in f.calls():
+            if method(cname(t)) in ("set_expire", "set_expire_sooner"):
+                flush_blocks.append(lift_to_inner_loop(f, b))
+                continue
             if method(cname(t)) != "for_each":
                 continue
             for a in t["args"][1:]:
@@ -528,7 +531,7 @@ def followup_needs_open_browse(ctx, P, pre):
     if len(q) != 1:
         return
     open_edges = guard_edges(P, f, lambda atom, outcome, bb: expr_or_closure_mentions_field(P, atom, "service_queriers", "Zeroconf"))
-    guarded_ = bool(open_edges) and must_pass_edges(f, q[0][0], open_edges)
+    guarded_ = bool(open_edges) and guarded(P, f, q[0][0], open_edges)
     stop = P.one("Zeroconf::exec_command_stop_browse")
     purged = any("Resolve" in vs for (_b, vs) in purge_info(P, stop)["removes"])
     ctx.ob(pre + ".followup-needs-open-browse", f.name, guarded_ or purged, f.loc(q[0][0]),
